@@ -96,6 +96,19 @@ def read_rel(p):
         return f.read()
 
 
+LOOP_ISO = re.compile(r"^([ \t]*)((?:pub(?:\([a-z]+\))?\s+)?(?:const\s+)?fn\s)", re.M)
+
+
+def no_loop_isolation(body, spec, unit):
+    """every extracted function is verified with `#[verifier::loop_isolation(false)]`: what is known before a loop
+    about variables the loop does not modify stays known inside it, so a local hoisted out of a loop (an alias, a
+    cached length, a flag) needs no invariant of its own.  Invariants are still required for what the loop changes.
+    (`loop_isolation = true` in a sidecar entry or unit restores Verus' default for that function.)"""
+    if spec.get("loop_isolation") or unit.get("loop_isolation"):
+        return body
+    return LOOP_ISO.sub(lambda m: m.group(1) + "#[verifier::loop_isolation(false)]\n" + m.group(1) + "#[verifier::allow_complex_invariants]\n" + m.group(1) + m.group(2), body, count=1)
+
+
 def build_unit(sidecar_path, sources, variant=None):
     """sources: callable label -> Src  ('expanded' or a repo-relative path)."""
     sc = load_sidecar(sidecar_path)
@@ -167,6 +180,7 @@ def build_unit(sidecar_path, sources, variant=None):
         else:
             vnames.append(f"{u.name}::{name}")
         body = f"// ---- extracted fn {f['path']} from {src.label} bytes {item['range']}  obligation {ob}\n" + ex["text"]
+        body = no_loop_isolation(body, f, sc)
         ch = Chunk("fn:" + f["path"], body, ob=ob, kind="fn", meta={"hash": ex["hash"], "raw": ex["raw"], "vnames": vnames, "spec": f, "trait_impl": bool(enc is not None and " as " in enc["path"])})
         u.functions_under_contract.append(f["path"])
         if key is None:
@@ -195,6 +209,7 @@ def build_unit(sidecar_path, sources, variant=None):
         body = f"// ---- closure #{a.get('n', 0)} of {a['path']} converted to a method (R31) from {src.label} bytes {ex['item']['range']}  obligation {ob}\n" + ex["text"]
         tyname = a.get("impl_type")
         vn = f"{u.name}::{tyname}::{a['name']}" if tyname else f"{u.name}::{a['name']}"
+        body = no_loop_isolation(body, a, sc)
         ch = Chunk("closure:" + a["name"], body, ob=ob, kind="fn", meta={"hash": ex["hash"], "raw": ex["raw"], "vnames": [vn], "spec": dict(a, path=a["path"] + " closure #" + str(a.get("n", 0))), "trait_impl": False})
         u.functions_under_contract.append(a["path"] + " :: closure #" + str(a.get("n", 0)))
         u.fns.append(ch)
@@ -217,6 +232,7 @@ def build_unit(sidecar_path, sources, variant=None):
         hdr = a.get("impl_header")
         tyname = a.get("impl_type")
         vn = f"{u.name}::{tyname}::{a['name']}" if tyname else f"{u.name}::{a['name']}"
+        body = no_loop_isolation(body, a, sc)
         ch = Chunk("arm:" + a["name"], body, ob=ob, kind="fn", meta={"hash": ex["hash"], "raw": ex["raw"], "vnames": [vn], "spec": dict(a, path=a["path"] + " arm " + a["arm"]), "trait_impl": False})
         u.functions_under_contract.append(a["path"] + " :: arm " + a["arm"])
         u.fns.append(ch)
